@@ -175,4 +175,19 @@ def exHeap : Heap :=
     { kind := .spur, name := 2, teeth := 40, drivenBy := some 1 }, { kind := .flywheel, name := 3 } ]
 example : assemble exHeap 0 5 = .ok { elements := [0, 1, 2], selfLocking := false } := by decide +kernel
 
+/-- the flag looks at the worm gear only — not at what the worm drives in the assembled chain (its wheel may
+    have been cut off by a later fixed joint) -/
+theorem selfLocking_of_flagged_worm (h : Heap) (m fuel : Nat) (pt : PT) (ha : assemble h m fuel = .ok pt)
+    (i : Nat) (hi : i ∈ pt.elements) (e : Elem) (he : h[i]? = some e) (hk : e.kind = .wormGear)
+    (hs : e.selfLocking = some true) : pt.selfLocking = true :=
+  (selfLocking_iff h m fuel pt ha).mpr ⟨i, hi, e, he, hk, hs⟩
+
+/-- non-vacuity: motor → flagged worm → flywheel; the wheel the worm was mated with (element 3) is no longer driven -/
+def exHeapWorm : Heap :=
+  [ { kind := .motor, name := 0, drives := some 1 },
+    { kind := .wormGear, name := 1, drives := some 2, drivenBy := some 0, selfLocking := some true },
+    { kind := .flywheel, name := 2, drivenBy := some 1 },
+    { kind := .wormWheel, name := 3, teeth := 30, drivenBy := some 1 } ]
+example : assemble exHeapWorm 0 5 = .ok { elements := [0, 1, 2], selfLocking := true } := by decide +kernel
+
 end Gearpy.C20
